@@ -26,6 +26,7 @@ MInfo == [mp |-> [ty |-> "int",   lo |-> 0, hi |-> 10, mandatory |-> TRUE],
           op |-> [ty |-> "float", lo |-> 0, hi |-> 20, mandatory |-> FALSE]]
 Commands == {"c"}
 LimitPairs == {"a_limits"}                 \* a Limit() parameter: value is a pair (low, high)
+LimBase == [a_limits |-> "a"]              \* ... limiting this parameter
 DtProps(ty) == IF ty = "float" THEN {"min", "max", "unit"} ELSE {"min", "max"}   \* datatype properties
 ParProps == {"value", "visibility", "readonly", "export"}                        \* parameter properties
 
@@ -73,7 +74,9 @@ EntryClass(cfg, e) ==
   ELSE IF e.par \in LimitPairs THEN
      IF e.prop # "value" THEN "unknownprop"
      ELSE IF e.v.ty # "pair" THEN "wrongtype"
-     ELSE IF e.v.n > e.v.m THEN "inverted" ELSE "inside"
+     ELSE IF e.v.n > e.v.m THEN "inverted"
+     ELSE IF e.v.n < EffLo(cfg, LimBase[e.par]) \/ e.v.m > EffHi(cfg, LimBase[e.par]) THEN "outside"   \* loose
+     ELSE "inside"
   ELSE "unknownname"
 
 BadClasses == {"wrongtype", "unknownname", "unknownprop", "inverted"}
